@@ -246,7 +246,8 @@ func (client *Crypto) New(ctx context.Context, namingFunc KIDNamingFunc) (*orm.K
 			Version: version,
 		}
 		audit.Log(ctx, log.Logger(), audit.CryptoNewKeyEvent).Infof("Generated new key pair: %s", kid)
-		return tx.Save(ref).Error
+		// Create (not Save, which upserts): a key reference for an existing kid must not be silently re-pointed to the new key.
+		return tx.Create(ref).Error
 	})
 	return ref, publicKey, err
 }
